@@ -74,7 +74,11 @@ func nodeTypes(p *Prog) map[*types.TypeName]string {
 func tnKey(tn *types.TypeName) string { return shortPkg(tn.Pkg().Path()) + "." + tn.Name() }
 
 // ruleD1: no by-value copy of a node or owner.
-func ruleD1(c *Ctx, pkgs map[string]bool, floor int) {
+func ruleD1(c *Ctx, pkgs map[string]bool, floor int) { ruleD1In(c, pkgs, floor, "") }
+
+// ruleD1In restricts the rule to functions declared in the given source file
+// (base name), "" for all.
+func ruleD1In(c *Ctx, pkgs map[string]bool, floor int, file string) {
 	p := c.P
 	R := c.R
 	R.Rule("D1", "values of node/owner types (their addresses are stored in neighbours / back pointers) are never copied: no `x := *p`, `*p = *q`, value parameter, result or receiver, or range copy", floor)
@@ -110,6 +114,9 @@ func ruleD1(c *Ctx, pkgs map[string]bool, floor int) {
 	R.Extra["node_types"] = names
 	for _, f := range p.Funcs {
 		if !pkgs[shortPkg(f.Pkg.PkgPath)] {
+			continue
+		}
+		if file != "" && !strings.HasSuffix(p.Fset.Position(f.Pos()).Filename, "/"+file) {
 			continue
 		}
 		info := f.Info()
